@@ -16,8 +16,8 @@ Inductive base :=
 | BOpt            (* Option<i32> *)
 | BGen            (* a generic parameter T with no Debug bound (whatever it is instantiated with) *)
 | BGenD           (* a generic parameter U: Debug *)
-| BAmb            (* a user struct `Amb(i32, i32)` whose hand-written Debug impl shows only the first field, while PartialEq
-                     (derived) compares both: two values may be unequal although their Debug texts are identical.
+| BAmb            (* a user struct `Amb(i32, i32)` whose hand-written Debug impl shows only the first field, while its PartialEq
+                     (hand-written, not symmetric: see Diag.v) looks at both: two values may be unequal although their Debug texts are identical.
                      Values: VCon "Amb" [VInt shown; VInt hidden] *)
 | BImp.           (* the WHOLE parameter type `&mut L<'a>` (a unique borrow of a type with a lifetime parameter): the macro's
                      MutImpossible class (method.rs classify_arg) -- the Inputs component is `unimock::Impossible`, so the
